@@ -1266,6 +1266,96 @@ class NamedTupleFieldsPy(IsNamedTupleClassPy):
 
 
 # ======================================================================================================================
+# C18: typing.is_structseq_class against SS = PyType_Check + SS_impl, the predicate the engine twin IsStructSequenceClassImpl is
+# proved against (ocv/contracts/twins.py).  Additional vocabulary / assumptions:
+#   A-BASES   for a type object, `cls.__bases__` is the tp_bases slot: a non-NULL exact tuple whose items compare by identity,
+#             and a class whose only base is `tuple` has the tuple-subclass flag (CPython's type creation inherits it)
+#   A-FLAGS   `cls.__flags__` is the tp_flags slot; the module constant Py_TPFLAGS_BASETYPE is CPython's 1 << 10
+#   A-CPYTHON `platform.python_implementation()` is 'CPython' (the PyPy branches of both twins are not verified)
+
+from ..twinspec import (SS_impl, SS_NAMES, ss_bases, ss_bases_is_tuple_only, ss_basetype, ss_exact_int, ss_names_distinct,  # noqa: E402
+                        ss_tuple_type)
+
+ss_flags = z3.Function('ss_flags', Ref, Int)
+PY_BASETYPE = 1 << 10
+
+
+def SS(c):
+    return z3.And(nt_is_type(c), SS_impl(c))
+
+
+@pycontract
+class IsStructSeqClassPy(IsNamedTupleClassPy):
+    function = 'is_structseq_class'
+
+    def setup(self, eng, st, fn):
+        super().setup(eng, st, fn)
+        c = z3.Const('cls', Ref)
+        st.facts.append(ss_names_distinct())
+        st.facts.append(z3.Not(ss_exact_int(PYNONE)))
+        st.facts.append(z3.Implies(nt_is_type(c), z3.And(ss_bases(c) != NULL, nt_exact_tuple(ss_bases(c)))))      # A-BASES
+        st.facts.append(z3.Implies(z3.And(nt_is_type(c), ss_bases_is_tuple_only(c)), nt_tuple_subclass(c)))       # A-BASES
+
+    def global_name(self, eng, st, name):
+        if name in ('int', 'bool', 'platform'):
+            return BuiltinV(name)
+        if name == 'Py_TPFLAGS_BASETYPE':
+            return z3.IntVal(PY_BASETYPE)                                                                         # A-FLAGS
+        return super().global_name(eng, st, name)
+
+    def attribute(self, eng, st, base, attr):
+        if isinstance(base, BuiltinV) and base.name == 'platform' and attr == 'python_implementation':
+            return BuiltinV('platform.python_implementation')
+        if is_z3(base) and base.sort() == Ref and attr == '__bases__':
+            return ss_bases(base)
+        if is_z3(base) and base.sort() == Ref and attr == '__flags__':
+            return ss_flags(base)
+        return super().attribute(eng, st, base, attr)
+
+    def equal(self, eng, st, a, b):
+        for x, y in ((a, b), (b, a)):
+            if is_z3(x) and z3.is_app(x) and x.decl().name() == 'ss_bases' and isinstance(y, TupV):
+                if len(y.items) == 1 and isinstance(y.items[0], BuiltinV) and y.items[0].name == 'tuple':
+                    return ss_bases_is_tuple_only(x.arg(0))
+                raise Unsupported('__bases__ compared with another tuple display')
+        return None
+
+    def binop(self, eng, st, op, a, b):
+        if isinstance(op, ast.BitAnd):
+            for x, y in ((a, b), (b, a)):
+                if is_z3(x) and z3.is_app(x) and x.decl().name() == 'ss_flags' and z3.is_int_value(y):
+                    if y.as_long() != PY_BASETYPE:
+                        raise Unsupported(f'__flags__ & {y}')
+                    return z3.If(ss_basetype(x.arg(0)), z3.IntVal(PY_BASETYPE), z3.IntVal(0))
+        return None
+
+    def call(self, eng, st, f, args, kwargs, n, stars):
+        if isinstance(f, BuiltinV) and f.name == 'platform.python_implementation' and not args:
+            lit = lambda v: z3.Const('strlit_' + str(abs(hash(v)) % 10**8), Str)     # the engine's constant for a string literal
+            eng.assume(st, lit('CPython') != lit('PyPy'))
+            return [(st, lit('CPython'))]                                                                          # A-CPYTHON
+        if isinstance(f, BuiltinV) and f.name == 'bool' and len(args) == 1:
+            return [(st, eng.truth(st, args[0]))]
+        return super().call(eng, st, f, args, kwargs, n, stars)
+
+    def identical(self, eng, a, b):
+        for x, y in ((a, b), (b, a)):
+            if is_z3(x) and z3.is_app(x) and x.decl().name() == 'py_type_of' and isinstance(y, BuiltinV) and y.name == 'int':
+                return ss_exact_int(x.arg(0))
+        return super().identical(eng, a, b)
+
+    def isinstance(self, eng, st, obj, cls):
+        if isinstance(cls, BuiltinV) and cls.name == 'int' and is_z3(obj):
+            from ..twinspec import ss_is_int
+            st.facts.append(z3.Implies(ss_exact_int(obj), ss_is_int(obj)))
+            return ss_is_int(obj)
+        return super().isinstance(eng, st, obj, cls)
+
+    def post(self, eng, st, entry, ret):
+        return [('result-is-the-struct-sequence-class-predicate', eng.truth(st, ret) == SS(z3.Const('cls', Ref)))]
+
+
+# ======================================================================================================================
 # C18 / C02: utils.total_order_sorted - the Python twin of the engine's TotalOrderSort (ocv/contracts/sorting.py), against
 # the same three-stage specification over abstract list contents
 
